@@ -26,12 +26,12 @@ NATIVE = [
 
 ASSUMPTIONS = [
     "snprintf (libc) is an assumed contract: its return value is a ghost length that depends only on the call, at most size bytes are written; format string and %s argument are not interpreted",
-    "JSON validity for arbitrary spellings is NOT decidable by any contract here: the code contains no escaping at all (\"%s\" copies the word verbatim), so a dictionary word containing a double quote or backslash yields invalid JSON -- recorded as an observation (D2), no contractible code exists",
+    "json_escape (the escaper every \"t\" field goes through) is an ASSUMED contract inside the format_seg proof (returns a fresh NUL-terminated string); its content is decided by the exhaustive native run json_escape_enum on the real function (all spellings of <= 2 bytes, 3 bytes over 48 representative values, 100 000 longer mixes): bounded, not proof. A CBMC run of the same statement (harness/C14_escape.c, spellings <= 3 bytes) did not finish in 300 s and is kept in tier probe",
     "times: the doubles handed to snprintf are checked by native enumeration over the listed ranges (bounded stand-in): the CBMC obligation 'b == start + sf/frate' needs the equivalence of two double dividers and did not finish on any back end",
 ]
 HAND_LEMMAS = ["two-pass agreement of decoder_result_json: sizing and writing pass call format_seg with the same arguments; by the format_seg contract both return the same length, so the write pass fills exactly the sized buffer (induction over the segment list; the bounded whole-function harness that checks this directly did not finish and is kept in tier 'probe')"]
-NOT_COVERED = ["decoder_result_json with segments (loop over the segment iterator)", "format_seg_align / format_align_iter (alignment levels 1 and 2)", "json_escape itself (assumed contract in the format_seg proof; its effect is checked by the native end-to-end run on a word with a quote and a backslash)", "probability field", "the items above (except JSON escaping, for which no code exists) are NOT under contract; on real decodes they are exercised only by the bounded native run e2e_invariants (independent JSON parser, levels 0-2, two frame rates) -- never counted as proved"]
+NOT_COVERED = ["decoder_result_json with segments (loop over the segment iterator)", "format_seg_align / format_align_iter (alignment levels 1 and 2)", "json_escape as a contract (assumed in the format_seg proof; decided on a bounded space by the native run json_escape_enum)", "probability field", "the items above (except JSON escaping, for which no code exists) are NOT under contract; on real decodes they are exercised only by the bounded native run e2e_invariants (independent JSON parser, levels 0-2, two frame rates) -- never counted as proved"]
 CLAIM = dict(
-    text="format_seg, the function that formats one segment of the JSON line, is proved (loop-free, full domain, snprintf replaced by an assumed contract): the sizing call (NULL buffer) and the writing call return the same length, the writing call stays inside its buffer and ends the item with '}' and NUL. The time fields (offset + frame / frame rate, duration / frame rate) of the real format_seg are checked by native enumeration over 43 200 (quick) frame/rate/offset combinations including rates that do not divide 1000. For an EMPTY result (no segments, no alignment) the whole line is proved: it is exactly as long as the block allocated for it, ends with ]} newline NUL, and no byte is written outside the block. The whole line WITH segments and validity for any spelling are NOT decided.",
+    text="format_seg, the function that formats one segment of the JSON line, is proved (loop-free, full domain, snprintf replaced by an assumed contract): the sizing call (NULL buffer) and the writing call return the same length, the writing call stays inside its buffer and ends the item with '}' and NUL. The time fields (offset + frame / frame rate, duration / frame rate) of the real format_seg are checked by native enumeration over 43 200 (quick) frame/rate/offset combinations including rates that do not divide 1000. For an EMPTY result (no segments, no alignment) the whole line is proved: it is exactly as long as the block allocated for it, ends with ]} newline NUL, and no byte is written outside the block. Word spellings: the real json_escape is run on every spelling of <= 2 bytes, every 3-byte spelling over 48 representative byte values and 100 000 longer mixes, decoded back by an independent JSON string decoder under AddressSanitizer (bounded native run). The whole line WITH segments is NOT decided by contracts (bounded end-to-end run only).",
     note="assumed snprintf contract; native enumeration for the floating-point time fields (bounded); decoder_result_json as a whole, alignment levels and JSON escaping not covered; end-to-end invariants on ~12 real decodes by a bounded native run (native/e2e_invariants.c), never counted as proved",
     technique="CBMC function contract (goto-instrument --dfcc) for format_seg; native exhaustive enumeration as bounded stand-in for the floating-point time fields; plus a bounded native run of the property's end-to-end invariants on real decodes (safety net, not proof)")
